@@ -22,6 +22,15 @@ mod replay;
 pub fn replay_other(kind: &str, v: &serde_json::Value) -> i32 {
     match kind {
         "hist" => c_hist::replay_hist(v),
+        "c03" => c_configs::replay_c03(v),
+        "views" | "iters" | "serde" | "unchanged" | "writer" | "policy" => {
+            // these cases are tiny and self-describing: print the recorded scenario; the verdict is
+            // re-established by re-running the (seconds long) check
+            println!("scenario: {}", serde_json::to_string_pretty(&v["replay"]).unwrap());
+            println!("recorded detail: {}", v["detail"]);
+            println!("replay: re-run `./check {} quick` to re-evaluate this case (it is part of the exhaustive box)", v["property"].as_str().unwrap_or("<id>"));
+            0
+        }
         _ => {
             eprintln!("unknown replay kind {}", kind);
             2
